@@ -238,6 +238,7 @@ def run_impl(case):
                 if op[2]:
                     for k in ("mask", "path", "label", "uuid"):
                         del j[k]
+                j_before = freeze(j)
                 d1 = DataSet.from_dict(j)
                 try:
                     d2 = DataSet.from_dict(j)
@@ -245,6 +246,22 @@ def run_impl(case):
                 except Exception as e2:
                     second = False
                     exc = "second import: " + type(e2).__name__
+                if freeze(j) != j_before and len(EXPORTS) < 5:
+                    EXPORTS.append((case, "from_dict altered the dictionary it was given"))
+                # the same export in the version-1 layout (keys frequency / real / imaginary), imported twice from the same dictionary
+                if len(EXPORTS) < 5:
+                    j1 = {k: v for k, v in j.items() if k not in ("version", "frequencies", "real_impedances", "imaginary_impedances")}
+                    j1.update(version=1, frequency=list(j["frequencies"]), real=list(j["real_impedances"]), imaginary=list(j["imaginary_impedances"]))
+                    j1_before = freeze(j1)
+                    try:
+                        v1a = DataSet.from_dict(j1)
+                        v1b = DataSet.from_dict(j1)
+                        if light_views(v1a) != light_views(d1) or light_views(v1b) != light_views(d1):
+                            EXPORTS.append((case, "the version-1 layout of an export imports as a different data set"))
+                        elif freeze(j1) != j1_before:
+                            EXPORTS.append((case, "from_dict altered the version-1 dictionary it was given"))
+                    except Exception as e3:  # noqa
+                        EXPORTS.append((case, "the version-1 layout of an export cannot be imported (twice): %s" % type(e3).__name__))
                 d = d1
                 tr["steps"].append(observe(d, True, second))
             elif t == "duplicate":
